@@ -78,6 +78,11 @@ def gen_case(seed: int, prop: str, tier: str) -> dict:
     if rng.random() < 0.15 and mode != "handles":
         case["fault"] = "missing_extent"
         case["fault_idx"] = rng.randrange(n)
+    elif rng.random() < 0.08 and mode == "descriptor" and any(x["kind"] == "flat" and not x.get("shared") for x in exts):
+        # a flat extent's file is a truncated copy: the disk still has its declared size and every other extent its own range
+        case["fault"] = "truncated_extent"
+        case["fault_idx"] = rng.choice([j for j, x in enumerate(exts) if x["kind"] == "flat" and not x.get("shared")])
+        case["fault_cut"] = rng.choice([0.0, 0.3, 0.5, 0.9])
     total = sum(x["cfg"]["nsectors"] for x in exts) * 512
     marks = {0, total}
     acc = 0
@@ -209,6 +214,12 @@ def build(case, world: World):
         p = paths[case["fault_idx"] % len(paths)]
         world.fs.files.pop(p, None)
         world.faults_fired["missing_extent"] += 1
+    if case.get("fault") == "truncated_extent":
+        p = paths[case["fault_idx"] % len(paths)]
+        tf = world.fs.files.get(p)
+        if tf is not None:
+            tf.trunc_at = int(tf.length * case["fault_cut"]) // 512 * 512
+            world.faults_fired["truncated_extent"] += 1
     return main, paths, Concat(views)
 
 
@@ -260,9 +271,13 @@ def run_case(case: dict) -> RunResult:
                 tb = traceback.extract_tb(e.__traceback__)[-1]
                 viol = v("raised:" + type(e).__name__, f"open raised {type(e).__name__}: {e} at {tb.filename.rsplit('/', 1)[-1]}:{tb.lineno}"[:300])
         else:
-            if case.get("fault"):
+            if case.get("fault") == "missing_extent":
                 viol = v("served-with-missing-extent", f"open succeeded although extent {case['fault_idx']} is missing "
                                                        f"(size reported {stream.size}, full size {model.n * 512})")
+        dmg = (0, 0)
+        if case.get("fault") == "truncated_extent":
+            a0 = sum(x["cfg"]["nsectors"] for x in case["exts"][: case["fault_idx"]]) * 512
+            dmg = (a0, a0 + case["exts"][case["fault_idx"]]["cfg"]["nsectors"] * 512)
         if viol is None and stream is not None:
             size = model.n * 512
             if stream.size != size:
@@ -287,9 +302,14 @@ def run_case(case: dict) -> RunResult:
                 except Exception as e:
                     tb = traceback.extract_tb(e.__traceback__)[-1]
                     log.add("client", op[0], op[1:], "raised:" + type(e).__name__)
+                    if case.get("fault") == "truncated_extent" and (op[1] if op[0] == "r" else op[1] * 512) - case["align"] < dmg[1] and \
+                            (op[1] + op[2] if op[0] == "r" else (op[1] + op[2]) * 512) + case["align"] > dmg[0]:
+                        continue
                     viol = v("raised:" + type(e).__name__, f"{op} raised {type(e).__name__}: {e} at {tb.filename.rsplit('/', 1)[-1]}:{tb.lineno}"[:300])
                     break
                 log.add("client", op[0], op[1:], got)
+                if case.get("fault") == "truncated_extent" and off - case["align"] < dmg[1] and off + ln + case["align"] > dmg[0]:
+                    continue  # the request (widened to the stream buffer) touches the damaged extent: nothing is promised about it
                 want = model.expected(off, ln)
                 np_ = model.nparts(off, ln)
                 key = (case["mode"], kinds, min(np_, 3), "tail" if off + ln >= size else "")
@@ -312,7 +332,7 @@ def run_case(case: dict) -> RunResult:
     for k in kinds:
         res.probes["extents.kind_" + k] = 1
     if case.get("fault"):
-        res.probes["extents.fault_missing_extent"] = 1
+        res.probes["extents.fault_" + case["fault"]] = 1
     if any(x["cfg"].get("file_offset") for x in case["exts"]):
         res.probes["extents.flat_with_file_offset"] = 1
     if any(x.get("shared") for x in case["exts"]):
